@@ -897,6 +897,8 @@ def wall(name, *edits):
 wall('pointer receiver on an opchild keeper helper (GetBaseDenom)', ('x/opchild/keeper/keeper.go','func (k Keeper) GetBaseDenom(','func (k *Keeper) GetBaseDenom('))
 wall('pointer receiver on the L2 sequence helpers', ('x/opchild/keeper/sequences.go','func (k Keeper) IncreaseNextL2Sequence(','func (k *Keeper) IncreaseNextL2Sequence('), ('x/opchild/keeper/sequences.go','func (k Keeper) IncreaseNextL1Sequence(','func (k *Keeper) IncreaseNextL1Sequence('))
 wall('pointer receiver on the validator diff', ('x/opchild/keeper/val_state_change.go','func (k Keeper) ApplyAndReturnValidatorSetUpdates(','func (k *Keeper) ApplyAndReturnValidatorSetUpdates('))
+wseed('C11c','C11.R1'); wseed('C12c','C12.R3'); wseed('C13c','C13.R9'); wseed('C14c','C14.R1'); wseed('C15c','C15.R3')
+wseed('C16c','C16.R3'); wseed('C17c','C17.R2'); wseed('C18c','C18.R3'); wseed('C19c','C19.R4'); wseed('C20c','C20.R1')
 #@@MORE@@
 for p,l in W.items():
     json.dump(l, open(os.path.join(HERE,p+'.json'),'w'), indent=1)
